@@ -370,7 +370,12 @@ impl Runtime for &'static Sched {
 
         // An inner mutex that is taken a second time inside the same outer critical section was released in between: threads that only take
         // the inner mutex can get in there (the outer lock does not exclude them), so the re-acquisition is a scheduling point
-        if let (Some(id), Some(outer)) = (acquiring, held.first()) {
+        // (only directly under the schedule lock and outside a pool thread's scan of the schedule, which holds a busy flag: elsewhere the
+        // crate calls whole scheduler functions under an outer lock, or looks at a schedule that may hold the same queue twice, and
+        // every inner section is a complete read-modify-write of its own)
+        let class_of = |id: &usize| inner.mutex_name.get(id).map(|(_, class)| *class).unwrap_or("other");
+        let outer_is_schedule = held.last().map(|o| class_of(o) == "sched").unwrap_or(false) && !held.iter().any(|h| class_of(h) == "busy");
+        if let (Some(id), Some(outer), true) = (acquiring, held.first(), outer_is_schedule) {
             let fresh = inner.nested_seen.get(&me).map(|(o, _)| o != outer).unwrap_or(true);
             if fresh { inner.nested_seen.insert(me, (*outer, vec![])); }
             let seen = &mut inner.nested_seen.get_mut(&me).unwrap().1;
